@@ -30,7 +30,7 @@ def run(chk):
         "the frames whose payload comes from the compressor, control opcodes never take the compressed path, writer and reader share the "
         "deflate trailer constant, the flush mode follows no-context-takeover; no data frame is written after close."
     )
-    chk.not_decided = "payload equality and message order end to end, equality of the compression contexts across histories, segmentation independence of the reader (see C12)."
+    chk.not_decided = "payload equality and message order end to end, equality of the compression contexts across histories, segmentation independence of the reader beyond the resumable-state rules shared with C12 (C11.rx.*)."
     wc = repo.cls(WM, W)
     sf = repo.func(WM, f"{W}.send_frame")
     wf = repo.func(WM, f"{W}._write_websocket_frame")
@@ -264,3 +264,7 @@ def run(chk):
         chk.ok("C11.closing", fin[0], "close(): _closing is set in a finally (also when sending the close frame failed or was cancelled)")
     else:
         chk.violation("C11.closing", cf, "finally: self._closing = True", "", "a failed/cancelled close leaves the writer open for data frames")
+    # ---- C11.rx: "however the frames are segmented in transit" - the reader's resumable-state rules are shared with C12 ----
+    from rules import C12
+
+    chk.include(C12.run, ("C12.rp", "C12.reset", "C12.mask"), ("C12.", "C11.rx."))
